@@ -134,6 +134,32 @@ func ops() []opdef {
 		c, _, _, _ := lib.Transports("ws", 64, nil)
 		return func(ctx context.Context) error { _, err := c.Receive(ctx); return err }
 	})
+	add("tcp/transport.Receive/silent-after-an-earlier-receive", 5*time.Second, func(x *harness.X) func(context.Context) error {
+		// the transport has been read from a moment ago, under a context without deadline
+		c, s, _, _ := tcpPair(64<<10, false)
+		if err := s.Send(context.Background(), lib.Msg("first", "x")); err != nil {
+			panic(err)
+		}
+		if _, err := c.Receive(context.Background()); err != nil {
+			panic(err)
+		}
+		return func(ctx context.Context) error { _, err := c.Receive(ctx); return err }
+	})
+	add("tcp+tls/transport.Send/peer-not-reading", 5*time.Second, func(x *harness.X) func(context.Context) error {
+		cconn, sconn := rt.Pipe(64 << 10)
+		ct := lime.NewTCPTransportFromConn(cconn, &lime.TCPConfig{TLSConfig: lib.TLSClientConfig()}, false)
+		st := lime.NewTCPTransportFromConn(sconn, &lime.TCPConfig{TLSConfig: lib.TLSServerConfig()}, true)
+		done := make(chan error, 1)
+		go func() { done <- st.SetEncryption(context.Background(), lime.SessionEncryptionTLS) }()
+		if err := ct.SetEncryption(context.Background(), lime.SessionEncryptionTLS); err != nil {
+			panic(err)
+		}
+		if err := <-done; err != nil {
+			panic(err)
+		}
+		big := strings.Repeat("x", 200<<10)
+		return func(ctx context.Context) error { return ct.Send(ctx, lib.Msg("m", big)) }
+	})
 	// ---- channel sends and command processing: the peer application consumes nothing
 	for _, kind := range []string{"inproc", "tcp", "ws"} {
 		kind := kind
